@@ -110,10 +110,27 @@ func (g *world) emit(s *sess, gen string) {
 	}
 	tags, trivial := classify(s, g.prop)
 	tags = append([]string{gen}, tags...)
-	coq := fmt.Sprintf("WQCase %d %d %s", s.W, s.L, cw.L(parts))
-	key := fmt.Sprintf("W%d L%d %s", s.W, s.L, strings.Join(sh, " "))
+	opts := s.opts
+	if opts == nil {
+		opts = []Opt{{"w", s.W}, {"l", s.L}}
+	}
+	os_ := make([]string, len(opts))
+	on := make([]string, len(opts))
+	for i, o := range opts {
+		if o.K == "w" {
+			os_[i] = fmt.Sprintf("OWorkers %s", cw.Z(o.N))
+			on[i] = fmt.Sprintf("WithWorkers(%d)", o.N)
+		} else {
+			os_[i] = fmt.Sprintf("OLength %s", cw.Z(o.N))
+			on[i] = fmt.Sprintf("WithQueueLength(%d)", o.N)
+		}
+	}
+	// W and L are NOT passed to Coq: the model computes the effective configuration from the option list
+	coq := fmt.Sprintf("WQOpts %d %s %s", runtime.NumCPU(), cw.L(os_), cw.L(parts))
+	key := fmt.Sprintf("NewQueue(%s) %s", strings.Join(on, ","), strings.Join(sh, " "))
 	g.w.Add(cw.Case{Coq: coq, Key: key, Tags: tags, Trivial: trivial,
-		Desc: map[string]any{"W": s.W, "L": s.L, "script": strings.Join(sh, " "), "stimuli": stims, "steps": s.steps, "generator": gen}})
+		Desc: map[string]any{"W": s.W, "L": s.L, "opts": opts, "new_queue": "NewQueue(" + strings.Join(on, ", ") + ")", "num_cpu": runtime.NumCPU(),
+			"script": strings.Join(sh, " "), "stimuli": stims, "steps": s.steps, "generator": gen}})
 }
 
 // classify derives branch tags from what the harness saw (black box) and the property's non-triviality rule.
@@ -247,7 +264,12 @@ func pick(r *rand.Rand, l []int) int { return l[r.Intn(len(l))] }
 
 func (g *world) runRandom(p profile, gen string) {
 	r := g.rng
-	s := newSess(pick(r, p.Ws), pick(r, p.Ls))
+	W0, L0 := pick(r, p.Ws), pick(r, p.Ls)
+	opts := []Opt{{"w", W0}, {"l", L0}}
+	if r.Intn(2) == 0 {
+		opts = []Opt{{"l", L0}, {"w", W0}} // the configuration is the same whichever option comes first
+	}
+	s := newSessOpts(opts)
 	nItems := 0
 	nsub := 0
 	nextErr := 0
@@ -360,6 +382,58 @@ func profileFor(prop, tier string) profile {
 	return p
 }
 
+// ---------- configuration scripts: HOW the worker count and queue length are given (C09) ----------
+// Each script builds the queue from an option list (either order, one option alone = the other at its default
+// NumCPU / 2*NumCPU, repeated options, optionally ResizeQueueLength right after construction), fills it with gated
+// work until two producers are blocked, completes three items and drains.  The expected W and L are computed in Coq.
+
+type cfgScript struct {
+	opts   []Opt
+	resize int // > 0: ResizeQueueLength(resize) right after construction
+	name   string
+}
+
+func configScripts() []cfgScript {
+	w := func(n int) Opt { return Opt{"w", n} }
+	l := func(n int) Opt { return Opt{"l", n} }
+	return []cfgScript{
+		{[]Opt{w(2), l(1)}, 0, "workers-then-length"},
+		{[]Opt{l(1), w(2)}, 0, "length-then-workers"},
+		{[]Opt{l(20), w(2)}, 0, "long-length-then-workers"},
+		{[]Opt{w(3), l(7)}, 0, "workers-then-length"},
+		{[]Opt{l(7), w(3)}, 0, "length-then-workers"},
+		{[]Opt{w(2)}, 0, "workers-only-default-length"},
+		{[]Opt{l(1)}, 0, "length-only-default-workers"},
+		{[]Opt{}, 0, "all-defaults"},
+		{[]Opt{w(1), l(3), w(3)}, 0, "repeated-workers"},
+		{[]Opt{l(5), w(2), l(1)}, 0, "repeated-length"},
+		{[]Opt{l(3), w(1), l(2), w(2)}, 0, "repeated-both"},
+		{[]Opt{l(1), w(2)}, 4, "resize-after-construction"},
+		{[]Opt{w(2), l(6)}, 1, "resize-after-construction"},
+		{[]Opt{w(2)}, 3, "resize-after-construction-default-length"},
+	}
+}
+
+func (g *world) runConfig(c cfgScript) {
+	s := newSessOpts(c.opts)
+	if c.resize > 0 {
+		s.do(Stim{Op: "resize", A: c.resize})
+	}
+	n := 0
+	for n < 130 && s.blockedProducers() < 2 && !s.hung && !s.unstable {
+		s.do(Stim{Op: "enq", A: 1, B: n})
+		n++
+	}
+	for k := 0; k < 3; k++ {
+		if r := s.runningItems(); len(r) > 0 {
+			s.do(Stim{Op: "fin", A: r[0], B: -1})
+		}
+	}
+	s.finishAll(600)
+	s.close()
+	g.emit(s, "config-"+c.name)
+}
+
 // ---------- exhaustive small scope: every word over a small adaptive alphabet ----------
 
 // symbols: a,b = Enqueue with priority 1,2; c = Enqueue with priority 1 and an adjust function;
@@ -367,7 +441,11 @@ func profileFor(prop, tier string) profile {
 // d = Dequeue the newest unstarted item; p = SetPriority(newest unstarted item, 0)
 // Returns the length of the longest prefix that denotes a script (len(word) if the whole word does).
 func (g *world) runWord(W, L int, word string) int {
-	s := newSess(W, L)
+	wopts := []Opt{{"w", W}, {"l", L}}
+	if len(word)%2 == 0 {
+		wopts = []Opt{{"l", L}, {"w", W}}
+	}
+	s := newSessOpts(wopts)
 	n := 0
 	ok := true
 	good := 0
@@ -474,6 +552,8 @@ func corpus() []script {
 		{1, 6, []Stim{enq(1, 0), enq(1, 1), enqA(2, 2), enq(3, 3), enqA(4, 4), adjv(2, 9), deq(2), fin(0), fin(1)}, "corpus-dequeue-after-adjust-change"},
 		{1, 6, []Stim{enq(1, 0), enq(1, 1), enqA(2, 2), enq(3, 3), enqA(4, 4), adjv(2, 9), adjv(4, 0), deq(3), fin(0), fin(1)}, "corpus-dequeue-other-after-adjust-change"},
 		{1, 6, []Stim{enq(1, 0), enq(1, 1), enqA(2, 2), enq(3, 3), enq(5, 4), adjv(2, 9), setp(4, 0), fin(0), fin(1)}, "corpus-setpriority-after-adjust-change"},
+		// far more workers than items (and than CPUs)
+		{64, 1, []Stim{enq(1, 0), enq(2, 1), enq(1, 2), enq(0, 3), enq(1, 4), fin(2), fin(0)}, "corpus-many-workers"},
 		// priorities further apart than the int range: the order must not be computed from a difference
 		{1, 6, []Stim{enq(0, 0), enq(0, 1), enq(math.MaxInt, 2), enq(-2, 3), enq(5, 4), enq(math.MinInt, 5), fin(0), fin(1)}, "corpus-extreme-priorities-enqueue"},
 		{1, 6, []Stim{enq(0, 0), enq(0, 1), enqA(1, 2), enqA(2, 3), enq(3, 4), adjv(2, math.MaxInt), adjv(3, math.MinInt), fin(0), fin(1)}, "corpus-extreme-priorities-adjust"},
@@ -489,6 +569,7 @@ func corpus() []script {
 
 type childIn struct {
 	W, L    int
+	Opts    []Opt  `json:"opts,omitempty"`
 	Stimuli []Stim `json:"stimuli"`
 }
 
@@ -509,7 +590,10 @@ func runChild(in, out string) {
 		fmt.Fprintln(os.Stderr, "child:", err)
 		os.Exit(2)
 	}
-	s := newSess(ci.W, ci.L)
+	if len(ci.Opts) == 0 {
+		ci.Opts = []Opt{{"w", ci.W}, {"l", ci.L}}
+	}
+	s := newSessOpts(ci.Opts)
 	s.onStep = func(st Step) {
 		j, _ := json.Marshal(st)
 		f.Write(append(j, '\n'))
@@ -550,7 +634,7 @@ var panicRe = regexp.MustCompile(`(?m)^(panic: .*|fatal error: .*)$`)
 func (g *world) spawn(self string, dir string, k int, W, L int, stims []Stim) ([]Step, *crash) {
 	in := fmt.Sprintf("%s/child-%d.json", dir, k)
 	out := fmt.Sprintf("%s/child-%d.jsonl", dir, k)
-	b, _ := json.Marshal(childIn{W, L, stims})
+	b, _ := json.Marshal(childIn{W: W, L: L, Stimuli: stims})
 	os.WriteFile(in, b, 0o644)
 	cmd := exec.Command(self, "-child", in, "-out", out)
 	var errb strings.Builder
@@ -775,7 +859,11 @@ func runBurstChild(in, out string) {
 	never := make(chan struct{})
 	for trial, c := range cfgs {
 		r := burstRes{Cfg: c, Trial: trial}
-		q := workqueue.NewQueue(workqueue.WithWorkers(c.W), workqueue.WithQueueLength(c.L))
+		bo := []workqueue.WorkQueueOption{workqueue.WithWorkers(c.W), workqueue.WithQueueLength(c.L)}
+		if trial%2 == 1 {
+			bo[0], bo[1] = bo[1], bo[0]
+		}
+		q := workqueue.NewQueue(bo...)
 		starts := make([]atomic.Int64, c.N)
 		done := make(chan struct{})
 		go func() {
@@ -965,6 +1053,7 @@ func main() {
 	if *rerun != "" {
 		var scs []struct {
 			W, L    int
+			Opts    []Opt  `json:"opts"`
 			Stimuli []Stim `json:"stimuli"`
 		}
 		b, err := os.ReadFile(*rerun)
@@ -977,7 +1066,10 @@ func main() {
 		}
 		for i, sc := range scs {
 			for k := 0; k < *times; k++ {
-				s := newSess(sc.W, sc.L)
+				if len(sc.Opts) == 0 {
+					sc.Opts = []Opt{{"w", sc.W}, {"l", sc.L}}
+				}
+				s := newSessOpts(sc.Opts)
 				for _, st := range sc.Stimuli {
 					s.do(st)
 				}
@@ -999,6 +1091,12 @@ func main() {
 		// 1. corpus
 		for _, sc := range corpus() {
 			g.runFixed(sc)
+		}
+		if *prop == "C09" {
+			for _, c := range configScripts() {
+				g.runConfig(c)
+			}
+			scope["configuration"] = fmt.Sprintf("%d scripts over NewQueue option lists (both orders, single options with the other at its default for NumCPU=%d, repeated options, ResizeQueueLength right after construction), each filling the queue until 2 producers block", len(configScripts()), runtime.NumCPU())
 		}
 		// 2. exhaustive small scope
 		alpha, n := "abf", 6
